@@ -22,7 +22,17 @@ func buildWorker(variant, scratch string) (worker string, extraEnv []string, sui
 		if e := cmd.Run(); e != nil {
 			return "", nil, "", fmt.Errorf("%v\n%s", e, out.String())
 		}
-		return worker, nil, "", nil
+		// the goyang command as it is in /repo, for the checks that drive it
+		cli := filepath.Join(scratch, "goyang-cli")
+		cc := exec.Command("go", "build", "-o", cli, ".")
+		cc.Dir = repoDir
+		cc.Env = goEnv()
+		out.Reset()
+		cc.Stdout, cc.Stderr = &out, &out
+		if e := cc.Run(); e != nil {
+			return "", nil, "", fmt.Errorf("building the goyang command: %v\n%s", e, out.String())
+		}
+		return worker, []string{"VERIF_CLI=" + cli, "VERIF_SCRATCH_DIR=" + scratch}, "", nil
 	}
 	return buildInstrumented(variant, scratch)
 }
